@@ -225,7 +225,7 @@ func OpenWith(pLog, dLog, cLog appendable.Appendable, opts *Options) (*AHtree, e
 		return nil, err
 	}
 
-	if pLogFileSize < t.pLogSize {
+	if t.pLogSize < 0 || pLogFileSize < t.pLogSize {
 		return nil, ErrorCorruptedData
 	}
 
@@ -424,7 +424,7 @@ func (t *AHtree) ResetSize(newSize uint64) error {
 			return err
 		}
 
-		if pLogFileSize < pLogSize {
+		if pLogSize < 0 || pLogFileSize < pLogSize {
 			return ErrorCorruptedData
 		}
 
